@@ -15,7 +15,7 @@ var (
 	VerifLLSig     DigitallySigned
 )
 
-//verif:stub github.com/google/certificate-transparency-go/tls.VerifySignature dir=loglist3 files=loglist3.go as=tls.VerifStubLLVerify
+//verif:stub github.com/google/certificate-transparency-go/tls.VerifySignature dir=loglist3 files=* as=tls.VerifStubLLVerify
 func VerifStubLLVerify(pubKey crypto.PublicKey, data []byte, sig DigitallySigned) error {
 	VerifLLCalls++
 	VerifLLKey, VerifLLData, VerifLLSig = pubKey, data, sig
